@@ -31,6 +31,7 @@ type specEnv struct {
 	resLoc  map[int]*Loc // results that are pointers to a cell allocated by the function
 	varLoc  map[string]*Loc // variables whose current value lives in memory (map-typed parameters)
 	noUnfold bool
+	structArg map[string]*Loc // struct arguments (by value) and the caller's location they were loaded from
 	visited Term // ghost set of keys already visited by the enclosing map range
 	bound   map[string]string // bound variable (SMT name) -> sort, for lemmas emitted under quantifiers
 }
@@ -700,6 +701,21 @@ func (e *enc) specCall(env *specEnv, n *SCall) (tval, error) {
 			return tval{}, fmt.Errorf("SeqEq needs two slices of the same type")
 		}
 		return bl(e.seqEq(as[0], as[1]))
+	case "Allocated":
+		// Allocated(p): p refers to an object in the set of allocated references of the state the clause is evaluated in
+		as, err := args()
+		if err != nil {
+			return tval{}, err
+		}
+		if len(as) != 1 || as[0].ty == nil {
+			return tval{}, fmt.Errorf("Allocated(p) needs a pointer")
+		}
+		pt, ok := as[0].ty.Underlying().(*types.Pointer)
+		if !ok {
+			return tval{}, fmt.Errorf("Allocated(p) needs a pointer")
+		}
+		ak := e.allocSetKey(pt.Elem())
+		return bl(fmt.Sprintf("(select %s %s)", e.memGet(env.mem, ak), as[0].t))
 	case "Visited":
 		if env.visited == "" {
 			return tval{}, fmt.Errorf("Visited(k) is only available in invariants of a loop that ranges over a map")
